@@ -79,7 +79,7 @@ func leaderCmd(r *rand.Rand, g *kmodel.Gen, n int, bigValues bool) []string {
 }
 
 type scenario struct {
-	initial string // empty, prefix-small, prefix-big, unrelated-small, unrelated-big, diverged-same-length
+	initial string // empty, prefix-small, prefix-big, unrelated-small, unrelated-big, diverged-same-length, unrelated-channels-only
 	faults  []string
 	big     bool
 }
@@ -189,7 +189,7 @@ func runScenario(ctx *core.Ctx, bin string, idx int, sc scenario) {
 			return
 		}
 		os.WriteFile(filepath.Join(fdir, "appendonly.aof"), nb, 0o600)
-	case "unrelated-small", "unrelated-big":
+	case "unrelated-small", "unrelated-big", "unrelated-channels-only":
 		u, err := srv.Start(srv.Opts{Bin: bin, Dir: fdir})
 		if err != nil {
 			ctx.Inconclusive(err.Error())
@@ -202,6 +202,12 @@ func runScenario(ctx *core.Ctx, bin string, idx int, sc scenario) {
 				uc.Do("SET", "unrelated", "u"+strconv.Itoa(i), "FIELD", "x", strconv.Itoa(i), "POINT", "9", "9")
 			}
 			uc.Do("SETCHAN", "uchan", "NEARBY", "unrelated", "FENCE", "POINT", "9", "9", "100")
+			if sc.initial == "unrelated-channels-only" {
+				// a log of its own, channels and a hook, and no object left
+				uc.Do("SETCHAN", "uchan2", "META", "m", "v", "WITHIN", "unrelated", "FENCE", "BOUNDS", "0", "0", "1", "1")
+				uc.Do("SETHOOK", "uhook", sink.URL("u"), "NEARBY", "unrelated", "FENCE", "POINT", "9", "9", "100")
+				uc.Do("DROP", "unrelated")
+			}
 			if sc.initial == "unrelated-big" {
 				for i := 0; i < 14; i++ {
 					uc.Do("SET", "unrelatedbig", "u"+strconv.Itoa(i), "STRING", big(50000, i))
@@ -585,7 +591,7 @@ func Run(ctx *core.Ctx) {
 		return
 	}
 	var scs []scenario
-	inits := []string{"empty", "prefix-small", "unrelated-small", "prefix-big", "unrelated-big", "diverged-same-length"}
+	inits := []string{"empty", "prefix-small", "unrelated-small", "prefix-big", "unrelated-big", "diverged-same-length", "unrelated-channels-only"}
 	// fixed core list: every initial state, every single fault
 	for _, in := range inits {
 		scs = append(scs, scenario{initial: in, big: strings.HasSuffix(in, "big")})
@@ -605,7 +611,8 @@ func Run(ctx *core.Ctx) {
 		scs = append(scs, scenario{initial: in, faults: fs, big: strings.HasSuffix(in, "big") || r.Intn(2) == 0})
 	}
 	var wg sync.WaitGroup
-	wg.Add(6)
+	wg.Add(7)
+	go func() { defer wg.Done(); runStraddle(ctx, bin) }()
 	go func() { defer wg.Done(); runStalePosition(ctx, bin) }()
 	go func() { defer wg.Done(); runStalledSwitch(ctx, bin) }()
 	go func() { defer wg.Done(); runStarValue(ctx, bin) }()
